@@ -324,7 +324,7 @@ class Check(PropertyCheck):
         out = []
         for f in res['failures'][:5]:
             out.append(Violation('oracle', 'builder scope stack not empty / current not reset after walking a module: '
-                                 + f['what'], case={'source': f['source']}, observed=f['what']))
+                                 + f['what'], case={'source': f['source'], 'layout': f.get('layout', 0)}, observed=f['what']))
         return out
 
     def search(self, broken: List[Violation]) -> List[Violation]:
@@ -345,7 +345,7 @@ class Check(PropertyCheck):
     def replay(self, data: Any) -> int:
         case = data['input']
         if isinstance(case, dict) and 'source' in case:
-            res = lib.run_impl_worker('c19_stack.py', {'sources': [case['source']]})
+            res = lib.run_impl_worker('c19_stack.py', {'sources': [case['source']], 'layouts': [case.get('layout', 0)]})
             print(json.dumps(res, indent=1))
             return 1 if res['failures'] else 0
         if case and case[0] == 'seq':
